@@ -18,7 +18,7 @@ import (
 // block is valid and must be accepted (as a side block), on pruning and
 // archive nodes; the usual invariants are judged after every call.
 func TestLongLightSideBranch(t *testing.T) {
-	ev.Check(t, ev.N(12, 40), func(t *rapid.T) {
+	ev.Check(t, ev.N(20, 60), func(t *rapid.T) {
 		nc := gen.ConfigByName("steep")
 		g := gen.Genesis(nc.Config, 0)
 		b, err := gen.NewBuilder(g)
@@ -27,7 +27,13 @@ func TestLongLightSideBranch(t *testing.T) {
 		}
 		defer b.Chain.Stop()
 		mk := func(parent *gen.TNode, dt int64, idx *int) *gen.TNode {
-			built, err := b.Build(parent.Block, gen.BlockSpec{TimeDelta: dt, Coinbase: gen.Keys[5].Addr})
+			// (the two branches are mined by different accounts: with one miner and empty blocks their states
+			// at equal heights would be identical and keep each other alive in the node's trie cache)
+			cb := gen.Keys[5].Addr
+			if dt == 1 {
+				cb = gen.Keys[6].Addr
+			}
+			built, err := b.Build(parent.Block, gen.BlockSpec{TimeDelta: dt, Coinbase: cb})
 			if err != nil {
 				t.Fatalf("build: %v", err)
 			}
@@ -38,7 +44,7 @@ func TestLongLightSideBranch(t *testing.T) {
 		idx := 0
 		longLen := rapid.IntRange(155, 172).Draw(t, "longlen")
 		shortLen := rapid.IntRange(12, 24).Draw(t, "shortlen") // the long branch ends more than 128 above the short one: a pruning node drops the head's state
-		firstPart := longLen - rapid.IntRange(5, 15).Draw(t, "later")
+		firstPart := longLen - rapid.IntRange(13, 22).Draw(t, "later") // more than the 12 tries the state database keeps cached after their commit
 		var long, short gen.Batch
 		p := root
 		for i := 0; i < longLen; i++ {
@@ -99,6 +105,9 @@ func TestLongLightSideBranch(t *testing.T) {
 		// the head's own branch goes on: with the side branch so far above it, a pruning node has
 		// dropped the head's state from memory and re-executes its own branch to build on it
 		tip := short[len(short)-1]
+		if !n.Chain.HasState(tip.Block.Root()) {
+			ev.Label("head-state-dropped-before-extension")
+		}
 		for i := 0; i < 2; i++ {
 			tip = mk(tip, 1, &idx)
 			byHash[tip.Block.Hash()] = tip
